@@ -9,44 +9,57 @@ import itertools
 import json
 import os
 
-from .common import C, Nat, Opt, Raw, Rec, coq
+from .common import C, Nat, Opt, Raw, Rec, Str, coq
 
 ID = "C02"
-COQ_FILES = ["C02/Model.v", "C02/Spec.v", "C02/Check.v", "C02/Proofs.v", "C02/Property.v"]
-COQ_PRELUDE = ("From Coq Require Import ZArith List Bool.\nImport ListNotations.\n"
-               "From KD Require Import C02.Model C02.Spec C02.Check.\nOpen Scope Z_scope.\n")
+COQ_FILES = ["C02/Model.v", "C02/Spec.v", "C02/AttrModel.v", "C02/AttrSpec.v", "C02/Check.v", "C02/Proofs.v",
+             "C02/AttrProofs.v", "C02/Property.v"]
+COQ_PRELUDE = ("From Coq Require Import ZArith List Bool String.\nImport ListNotations.\n"
+               "From KD Require Import C02.Model C02.Spec C02.AttrModel C02.AttrSpec C02.Check.\nOpen Scope Z_scope.\n")
 COQ_CHECK = "check"
 COQ_CASE_TYPE = "case_t"
 SHARD = 150
 TRUSTED = [
-    "hand-written model coq/C02/Model.v of KDSubset/KDConcatDataset/KDWrapper/KDDataset index translation, "
-    "getall, utils.getall fast/slow path and introspection; tied to KD_REPO by this run's correspondence evaluation",
+    "hand-written models coq/C02/Model.v (KDSubset/KDConcatDataset/KDWrapper/KDDataset index translation, getall, "
+    "utils.getall fast/slow path, wrapper lists) and coq/C02/AttrModel.v (__getattr__ delegation link by link incl. the "
+    "getdim_ alias, fused_operations / requires_propagate_ctx / collators, worker_init_fn reach, dispose, ModeWrapper on "
+    "top); tied to KD_REPO by this run's correspondence evaluation",
+    "Python attribute lookup on one object (data descriptor > instance dict > method / class attribute; an "
+    "AttributeError out of a property getter falls through to __getattr__) is modelled by AttrModel.own and exercised "
+    "against CPython on every case; names defined by the kappadata base classes themselves are outside the environments",
     "torch.utils.data.Subset / ConcatDataset constructors (only their indices / cumulative_sizes results are used); "
     "bisect.bisect_right on a non-decreasing list = first position whose entry exceeds the key",
-    "Python list / ndarray / tensor indexing (negative wraps once, IndexError beyond); int(idx / P) = truncated "
-    "quotient (exact below 2**53)",
-    "harness/c02.py: stack builder, root dataset returning id*1000+pos, observation canonicalisation",
+    "Python list / tuple / range / ndarray / tensor indexing (negative wraps once, IndexError beyond), also with numpy "
+    "integer and 0-d tensor indices; int(idx / P) = truncated quotient (exact below 2**53)",
+    "harness/c02.py: stack builder (dynamic subclasses carrying the environments, token objects naming the definition "
+    "that answered), root dataset returning id*1000+pos, observation canonicalisation",
     "all raised exceptions are one error value (IndexError, ValueError, ZeroDivisionError, AssertionError)",
 ]
 ASSUMPTIONS = [
     "valid stacks: subset entries address existing items of the layer below (negative entries allowed), concats "
-    "non-empty with finite parts, parts of a balanced concat non-empty",
-    "getall-vs-getitem agreement is claimed for stacks without a balanced concat (KDConcatDataset._call_getall "
-    "ignores balanced_sampling: a recorded known finding, reproduced on every run by corpus/C02/known_balanced_getall.json) and for "
-    "concat parts whose getall returns a list (the code asserts it)",
+    "non-empty with finite parts, parts of a balanced concat non-empty (introspection is checked on every constructible stack)",
+    "getall-vs-getitem agreement for every stack with a length: directly where getall_x is offered (no balanced concat "
+    "below -- repaired by fixes/C02_balanced_getall_attr.patch -- and concat parts whose getall returns a list, the code "
+    "asserts it), through utils.getall* everywhere",
     "balanced concat: non-negative indices (the spec is silent on negative ones; the model mirrors the code)",
-    "attribute delegation is exercised for root_dataset, getshape_x/getdim_x, one plain attribute and dispose only",
+    "attribute delegation: nearest-provider resolution is claimed for linear chains (KDSubset / KDWrapper / ModeWrapper "
+    "over a root) and, through concats, along the first parts (what the code documents); getdim_<kind> is answered by the "
+    "first KDDataset-family layer with ITS getshape_<kind>: a getshape_<kind> defined on a KDSubset subclass above it is "
+    "not seen by getdim_<kind> (no kappadata class does that; observed, mirrored by the model, not claimed as a defect)",
+    "ModeWrapper on top is constructed with mode 'index' (its own item logic is property C01); its dispose() forwards "
+    "(repaired by fixes/C02_mode_wrapper_dispose.patch)",
 ]
-RULE = ("random nestings depth 1-6 over 1-4 roots of size 0-12: subset index lists with repeats and negative entries "
-        "(list/ndarray/tensor), concats of 1-4 parts incl. empty parts, balanced concats at the top or under a subset, "
-        "wrapper classes with 5 type tags, getall providers list/ndarray/tensor/absent, all valid k plus a few invalid; "
+RULE = ("directed cases (index containers list/tuple/range/ndarray/tensor x index types int/numpy/0-d tensor, negative "
+        "entries through 5 layers, empty stacks, shadowed attribute environments) + random nestings depth 1-6 over 1-4 "
+        "roots of size 0-12: subset index lists with repeats, negative entries, permutations / rotations / fixed end "
+        "points, concats of 1-4 parts incl. empty parts, balanced concats at the top or under a subset, fixed and "
+        "per-case wrapper classes (a class may occur twice), getall providers list/ndarray/tensor/absent, random attribute "
+        "environments on every node (methods / properties / raising properties / class attributes / instance attributes, "
+        "getshape_/getdim_ pairs, names shadowed at several layers), fused_operations / requires_propagate_ctx / collators "
+        "overrides, ModeWrapper on top in 30%, all valid k plus a few invalid; "
         "non-trivial = depth >= 2 and at least one item resolved; distinct by stack shape")
 ALLOWED_AXIOMS = []
-KNOWN_FINDINGS_PROPOSED = [
-    {"property": "C02", "match": {"probe": "balanced_getall"},
-     "what": "KDSubset(KDConcatDataset([a,b], balanced_sampling=True), idxs): getitem_x follows the round-robin map, "
-             "getall_x indexes the plain concatenation, so getall_x()[k] != getitem_x(k) (see fixes/C02_balanced_getall.txt)"},
-]
+KNOWN_FINDINGS_PROPOSED = []      # the balanced-getall finding is repaired (fixes/C02_balanced_getall_attr.patch)
 
 SUB_TAGS = [0, 1]
 WRAP_TAGS = [2, 3, 4]
@@ -99,6 +112,112 @@ def t_has(t, pred):
     if t["t"] == "root":
         return False
     return t_has(t["s"], pred)
+
+
+# ---------------------------------------------------------------------------
+# attribute environments (what Python's normal lookup finds on a node before __getattr__ is consulted)
+# ---------------------------------------------------------------------------
+KINDS = {"method": ("KMethod", 0), "prop": ("KProp", 1), "cattr": ("KCattr", 2), "shape2": ("KShape2", 4),
+         "shapent": ("KShapeNT", 5), "prop_raise": ("KPropRaise", 6)}
+KC_INST = 3
+PLAIN_POOL = ["alpha", "beta", "gamma", "delta"]
+SHAPE_KINDS = ["u", "v"]
+MW_TAG = 99
+
+
+def annotate(case):
+    """deep copy of the case's tree with a pre-order "uid" on every node; a ModeWrapper on top (case["mw"]) becomes
+    the node {"t": "mode", "s": tree} with uid 0"""
+    cnt = itertools.count()
+
+    def go(t):
+        n = dict(t)
+        n["uid"] = next(cnt)
+        if t["t"] == "cat":
+            n["parts"] = [go(q) for q in t["parts"]]
+        elif t["t"] != "root":
+            n["s"] = go(t["s"])
+        return n
+    t = case["stack"]
+    if case.get("mw"):
+        t = {"t": "mode", "tag": MW_TAG, "inst": list(case.get("mw_inst", [])), "s": t}
+    return go(t)
+
+
+def node_class(case, n):
+    """class-level part of a node: {"cls": {name: kind}, "fo": [group ids], "req": bool}; KDSubset / KDWrapper nodes with
+    tag >= 10 use entry tag-10 of the case's class table (several nodes may share a class)"""
+    if n["t"] in ("sub", "wrap") and n["tag"] >= 10:
+        return case["classes"][n["tag"] - 10]
+    return {"cls": n.get("cls", {}), "fo": n.get("fo", []), "req": bool(n.get("req", False))}
+
+
+def o_own(case, n, name):
+    """normal lookup on the node itself: (uid, kind code) or None (-> __getattr__): a property wins over the
+    instance dict, the instance dict over methods / class attributes, a property raising AttributeError falls through"""
+    kind = node_class(case, n)["cls"].get(name)
+    if kind == "prop":
+        return (n["uid"], 1)
+    if kind == "prop_raise":
+        return None
+    if name in n.get("inst", []):
+        return (n["uid"], KC_INST)
+    if kind is not None:
+        return (n["uid"], KINDS[kind][1])
+    return None
+
+
+def o_path(t):
+    """the nodes that answer for a stack, outermost first: a concat answers with its first part"""
+    out = []
+    while True:
+        out.append(t)
+        if t["t"] == "root":
+            return out
+        if t["t"] == "cat":
+            if not t["parts"]:
+                return out
+            t = t["parts"][0]
+        else:
+            t = t["s"]
+
+
+def o_nearest(case, nodes, name):
+    for n in nodes:
+        r = o_own(case, n, name)
+        if r is not None:
+            return ["found", r[0], r[1]]
+    return ["missing"]
+
+
+def o_query(case, top, name):
+    """expected observation of getattr(top, name) (called when callable) through the path of the stack"""
+    path = o_path(top)
+    if not name.startswith("getdim_"):
+        return o_nearest(case, path, name)
+    for i, n in enumerate(path):
+        r = o_own(case, n, name)
+        if r is not None:
+            return ["found", r[0], r[1]]
+        if n["t"] in ("root", "wrap"):
+            # the first KDDataset-family layer answers the alias with ITS getshape_<kind>
+            got = o_nearest(case, path[i:], "getshape_" + name[len("getdim_"):])
+            return got if got[0] == "found" and got[2] == 0 else ["assert"]
+    return ["missing"]
+
+
+def o_preorder(t):
+    yield t
+    if t["t"] == "cat":
+        for q in t["parts"]:
+            yield from o_preorder(q)
+    elif t["t"] != "root":
+        yield from o_preorder(t["s"])
+
+
+def o_attr_ctor_ok(case, top):
+    return not any(n["t"] in ("root", "wrap", "mode") and any(nm.startswith("getdim_") for nm in node_class(case, n)["cls"])
+                   for n in o_preorder(top))
 
 
 # ---------------------------------------------------------------------------
@@ -160,7 +279,7 @@ def o_chain(t):
 
 
 def o_getall_claimed(t):
-    """getall is offered by every root, no balanced concat below, concat parts give lists"""
+    """concat parts give lists (KDConcatDataset asserts it)"""
     def part_is_list(p):
         while p["t"] == "wrap":
             p = p["s"]
@@ -170,7 +289,7 @@ def o_getall_claimed(t):
         if t["t"] == "root":
             return True
         if t["t"] == "cat":
-            return not t["bal"] and all(ok(p) and part_is_list(p) for p in t["parts"])
+            return all(ok(p) and part_is_list(p) for p in t["parts"])
         return ok(t["s"])
     return ok(t)
 
@@ -180,6 +299,15 @@ def oracle(case, obs):
         return "harness exception: " + obs["harness_exception"] + obs.get("tb", "")
     t = case["stack"]
     d = o_den(t)
+    attr_ok = o_attr_ctor_ok(case, annotate(case))
+    if not attr_ok:
+        # KDDataset.__init__ refuses classes that define getdim_* themselves (getshape_* is the primitive)
+        return None if not obs["ctor"] else "a KDDataset-family class defining getdim_<kind> itself was accepted"
+    if obs["ctor"]:
+        # introspection does not depend on the subset entries being valid indices
+        msg = o_attr(case, obs)
+        if msg:
+            return msg
     if d is None:
         return None
     if not obs["ctor"]:
@@ -191,10 +319,20 @@ def oracle(case, obs):
         exp = o_at(d, k)
         if exp is not None and it != exp:
             return f"getitem_x({k}) = {it}, the composed index map gives {exp} (root {exp // 1000} item {exp % 1000})"
-    has_all = not t_has(t, lambda n: n["t"] == "root" and n["pk"] == "none")
-    if obs["hasall"] != has_all:
+    # getall_x is offered when every root provides it and no endless (balanced) concat is below; wherever it is offered
+    # -- whatever hasattr says -- a returned list must be the index map (agreement with getitem_x element by element)
+    no_provider = t_has(t, lambda n: n["t"] == "root" and n["pk"] == "none")
+    balanced = t_has(t, lambda n: n["t"] == "cat" and n["bal"])
+    has_all = not no_provider and not balanced
+    if d[0] == "fin" and obs["getall"][0] == "ok" and o_getall_claimed(t) and obs["getall"][2] != d[1]:
+        return (f"getall_x() = {obs['getall'][2]} but getitem_x over range(len) / the index map gives {d[1]}"
+                + (" (balanced concat below)" if balanced else ""))
+    if obs["hasall"] != has_all and not balanced:
+        # (over a balanced concat the claim is on the lists returned -- above and below; that hasattr is False there is
+        # how the repaired code achieves it and is left to the model comparison)
         return f"hasattr(stack, 'getall_x') = {obs['hasall']} although " + (
-            "every root provides getall_x" if has_all else "a root below has no getall_x")
+            "every root provides getall_x" if has_all else
+            "a root below has no getall_x" if no_provider else "a balanced (endless) concat is below")
     if has_all and o_getall_claimed(t):
         if obs["getall"] != ["ok", obs["getall"][1], d[1]] or d[0] != "fin":
             return f"getall_x() = {obs['getall']} but the per-sample accessor / index map gives {d[1]}"
@@ -202,14 +340,13 @@ def oracle(case, obs):
         for nm in ("util", "util_list", "util_numpy", "util_tensor"):
             if obs[nm][0] != "ok" or obs[nm][2] != d[1]:
                 return f"utils.{nm.replace('util', 'getall').replace('getall_', 'getall_as_')}(stack,'x') = {obs[nm]} but the index map gives {d[1]}"
-    if case.get("probe") == "balanced_getall" and d[0] == "fin" and has_all:
-        if obs["getall"][0] == "ok" and obs["getall"][2] != d[1]:
-            return f"getall_x() = {obs['getall'][2]} but getitem_x over range(len) = {d[1]} (balanced concat below)"
     if sorted(obs["dispose"]) != sorted(o_roots(t)) or obs["dispose"] != o_roots(t):
         return f"dispose() reached roots {obs['dispose']}, the stack contains roots {o_roots(t)}"
     ch = o_chain(t)
     if ch is not None:
         tags, rid = ch
+        if case.get("mw"):
+            tags = [MW_TAG] + tags
         if obs["root"] != rid:
             return f"root_dataset is root {obs['root']}, the chain ends in root {rid}"
         if obs["attr"] != [rid, rid + 3, rid + 3]:
@@ -225,10 +362,114 @@ def oracle(case, obs):
     return None
 
 
+def o_attr(case, obs):
+    """attribute delegation and introspection, stated on the annotated tree"""
+    a = obs.get("a")
+    if a is None:
+        return None
+    top = annotate(case)
+    nodes = list(o_preorder(top))
+    roots = [n["uid"] for n in nodes if n["t"] == "root"]
+    if a["dispose"] != roots:
+        return f"dispose() disposed the roots (uids) {a['dispose']}, the stack contains {roots}" + \
+            (" below a ModeWrapper" if case.get("mw") else "")
+    if a["with"] != roots:
+        return f"leaving `with stack:` disposed the roots (uids) {a['with']}, the stack contains {roots}"
+    reach = [n["uid"] for n in nodes if n["t"] in ("root", "wrap")]
+    if a["wreach"] != reach:
+        return f"worker_init_fn(0) reached the KDWrapper / root nodes {a['wreach']}, the stack contains {reach}"
+    path = o_path(top)
+    linear = path[-1]["t"] == "root" and len(path) == len(nodes)
+    for nm, got in a["queries"]:
+        if nm.startswith(("getitem_", "getall_")) or nm == "__getitems__":
+            continue
+        exp = o_query(case, top, nm)
+        if got != exp:
+            return (f"getattr(stack, {nm!r}) gave {got}; the nearest provider through "
+                    f"{'the chain' if linear else 'the first parts'} is {exp} (found: [node uid, kind code])")
+    if a["root"] != path[-1]["uid"] and path[-1]["t"] == "root":
+        return f"root_dataset is node {a['root']}, the chain ends in node {path[-1]['uid']}"
+    layers = [n for n in path if n["t"] in ("sub", "wrap", "mode")]
+    if a["wrappers"] != [n["uid"] for n in layers]:
+        return f"all_wrappers are the nodes {a['wrappers']}, the layers of the chain are {[n['uid'] for n in layers]}"
+    for uid, b in a["haswrap"]:
+        if b != (uid in [n["uid"] for n in layers]):
+            return f"has_wrapper(<node {uid}>) = {b}; the layers of the chain are {[n['uid'] for n in layers]}"
+    tags = [n["tag"] for n in layers]
+    for tg, r in a["oftype1"]:
+        pos = [i for i, x in enumerate(tags) if x == tg]
+        exp = ["none"] if not pos else (["at", pos[0]] if len(pos) == 1 else ["assert"])
+        if r != exp:
+            return f"get_wrapper_of_type(tag {tg}) gave {r}, the chain's layer tags are {tags} (expected {exp})"
+    if path[-1]["t"] == "root":
+        rootn = path[-1]
+        has_cat = any(n["t"] == "cat" for n in path)
+        if not has_cat and a["coll"] != list(rootn.get("coll", [])):
+            return f"collators = {a['coll']}, the root registers {rootn.get('coll', [])}"
+        if not case.get("mw") and not has_cat:
+            fo = list(rootn.get("fo", []))
+            for n in reversed(layers):
+                if n["t"] == "wrap":
+                    fo += list(node_class(case, n)["fo"])
+            if a["fused"] != fo:
+                return f"fused_operations (group ids) = {a['fused']}, root + wrappers inside-out declare {fo}"
+    if not case.get("mw"):
+        # a stack requires ctx propagation when some layer on the way to ANY of its roots does (a concat: any part --
+        # otherwise the loaders of that part would be handed ctx=None)
+        def req_of(n):
+            if n["t"] == "root":
+                return bool(n.get("req"))
+            if n["t"] == "cat":
+                return any(req_of(q) for q in n["parts"])
+            return (n["t"] == "wrap" and node_class(case, n)["req"]) or req_of(n["s"])
+        if a["req"] != req_of(top):
+            return f"requires_propagate_ctx = {a['req']}, the layers / parts of the stack declare {req_of(top)}"
+    if case.get("mw") and (a["fused"] != "RuntimeError" or a["req"] != "RuntimeError"):
+        return f"ModeWrapper.fused_operations / requires_propagate_ctx must refuse: {a['fused']} / {a['req']}"
+    return None
+
+
 # ---------------------------------------------------------------------------
 # running the real code
 # ---------------------------------------------------------------------------
 _CLASSES = {}
+
+
+class Tok:
+    """what a definition of an attribute environment answers: (uid of the node it was found on, kind code)"""
+    def __init__(self, uid, kc):
+        self.uid, self.kc = uid, kc
+
+
+class _ClassAttr:
+    """a plain class attribute (non-data descriptor: the instance dict wins over it) that knows the node it is read on"""
+    def __get__(self, obj, typ=None):
+        return self if obj is None else Tok(obj._uid, 2)
+
+
+def _raise_attr(self):
+    raise AttributeError("property getter failed")
+
+
+def _cls_namespace(cls_env):
+    ns = {}
+    for name, kind in cls_env.items():
+        if kind == "method":
+            if name.startswith("getshape_"):
+                ns[name] = lambda self: (Tok(self._uid, 0),)
+            else:
+                ns[name] = lambda self: Tok(self._uid, 0)
+        elif kind == "shape2":
+            ns[name] = lambda self: (Tok(self._uid, 4), 7)
+        elif kind == "shapent":
+            ns[name] = lambda self: [Tok(self._uid, 5)]
+        elif kind == "prop":
+            ns[name] = property(lambda self: Tok(self._uid, 1))
+        elif kind == "prop_raise":
+            ns[name] = property(_raise_attr)
+        elif kind == "cattr":
+            ns[name] = _ClassAttr()
+    return ns
 
 
 def _classes():
@@ -240,10 +481,18 @@ def _classes():
     from kappadata.datasets.kd_dataset import KDDataset
     from kappadata.datasets.kd_subset import KDSubset
     from kappadata.datasets.kd_wrapper import KDWrapper
+    from kappadata.wrappers.mode_wrapper import ModeWrapper
+
+    class Coll:
+        def __init__(self, cid):
+            self.cid = cid
+
+        def set_rng(self, rng):
+            pass
 
     class Root(KDDataset):
-        def __init__(self, id, n, log):
-            super().__init__()
+        def __init__(self, id, n, log, coll=()):
+            super().__init__(collators=[Coll(c) for c in coll] or None)
             self.id = id
             self.marker = id
             self.x = [id * 1000 + j for j in range(n)]
@@ -260,6 +509,10 @@ def _classes():
 
         def dispose(self):
             self.log.append(self.id)
+
+        def worker_init_fn(self, rank, **kwargs):
+            self.wlog.append(self._uid)
+            super().worker_init_fn(rank, **kwargs)
 
     class RootList(Root):
         def getall_x(self):
@@ -283,27 +536,102 @@ def _classes():
         pass
 
     _CLASSES.update(root={"none": Root, "list": RootList, "np": RootNp, "torch": RootTorch},
-                    tag={0: KDSubset, 1: SubA, 2: KDWrapper, 3: WrapA, 4: WrapB},
-                    cat=KDConcatDataset, np=np, torch=torch)
+                    tag={0: KDSubset, 1: SubA, 2: KDWrapper, 3: WrapA, 4: WrapB, MW_TAG: ModeWrapper},
+                    cat=KDConcatDataset, np=np, torch=torch, KDWrapper=KDWrapper, KDSubset=KDSubset,
+                    ModeWrapper=ModeWrapper)
     return _CLASSES
 
 
-def build(t, log):
+def _groups(ids):
+    return [[f"g{g}a", f"g{g}b"] for g in ids]
+
+
+def _with_overrides(K, base, spec):
+    """dynamic subclass of `base` carrying the class-level definitions of `spec` (node_class form); for KDWrapper
+    classes also the fused_operations / requires_propagate_ctx overrides"""
+    ns = _cls_namespace(spec["cls"])
+    if issubclass(base, K["KDWrapper"]):
+        if spec.get("fo"):
+            ns["fused_operations"] = property(
+                lambda self, add=_groups(spec["fo"]): super(type(self), self).fused_operations + [list(g) for g in add])
+        if spec.get("req"):
+            ns["requires_propagate_ctx"] = property(lambda self: True)
+    return type(base.__name__ + "X", (base,), ns)
+
+
+def build(case, t, env):
+    """t: annotated node; env: {"log", "wlog", "objs": {uid: object}, "table": {tag: class}}"""
     K = _classes()
     k = t["t"]
     if k == "root":
-        return K["root"][t["pk"]](t["id"], t["n"], log)
-    if k == "sub":
-        inner = build(t["s"], log)
+        base = K["root"][t["pk"]]
+        ns = _cls_namespace(t.get("cls", {}))
+        if t.get("fo"):
+            ns["fused_operations"] = property(lambda self, fo=_groups(t["fo"]): [list(g) for g in fo])
+        if t.get("req"):
+            ns["requires_propagate_ctx"] = property(lambda self: True)
+        cls = type(base.__name__ + "X", (base,), ns) if ns else base
+        o = cls(t["id"], t["n"], env["log"], coll=t.get("coll", ()))
+        o.wlog = env["wlog"]
+    elif k == "sub":
+        inner = build(case, t["s"], env)
         idxs = t["idxs"]
         if t.get("ic") == "np":
             idxs = K["np"].array(idxs, dtype=K["np"].int64)
         elif t.get("ic") == "torch":
             idxs = K["torch"].tensor(idxs, dtype=K["torch"].long)
-        return K["tag"][t["tag"]](inner, idxs)
-    if k == "wrap":
-        return K["tag"][t["tag"]](build(t["s"], log))
-    return K["cat"]([build(p, log) for p in t["parts"]], balanced_sampling=t["bal"])
+        elif t.get("ic") == "tuple":
+            idxs = tuple(idxs)
+        elif t.get("ic") == "range":
+            idxs = _as_range(idxs)
+        o = _layer_class(case, t, env)(inner, idxs)
+    elif k == "wrap":
+        o = _layer_class(case, t, env)(build(case, t["s"], env))
+        uid = t["uid"]
+        o.__dict__["_worker_init_fn"] = lambda rank, **kw: env["wlog"].append(uid)
+    elif k == "mode":
+        o = K["ModeWrapper"](build(case, t["s"], env), mode="index")
+    else:
+        parts = [build(case, q, env) for q in t["parts"]]
+        cls = K["cat"]
+        if t.get("cls"):
+            cls = type("KDConcatDatasetX", (cls,), _cls_namespace(t["cls"]))
+        o = cls(parts, balanced_sampling=t["bal"])
+    o.__dict__["_uid"] = t["uid"]
+    for name in t.get("inst", []):
+        o.__dict__[name] = Tok(t["uid"], KC_INST)
+    env["objs"][t["uid"]] = o
+    return o
+
+
+def _as_range(idxs):
+    """range(...) with exactly these entries (the generator only asks for it when there is one)"""
+    if len(idxs) == 0:
+        return range(0)
+    if len(idxs) == 1:
+        return range(idxs[0], idxs[0] + 1)
+    step = idxs[1] - idxs[0]
+    r = range(idxs[0], idxs[-1] + (1 if step > 0 else -1), step)
+    assert list(r) == list(idxs)
+    return r
+
+
+def is_range(idxs):
+    if len(idxs) < 2:
+        return all(i >= 0 for i in idxs)
+    step = idxs[1] - idxs[0]
+    return step != 0 and all(b - a == step for a, b in zip(idxs, idxs[1:])) and all(i >= 0 for i in idxs)
+
+
+def _layer_class(case, t, env):
+    K = _classes()
+    tag = t["tag"]
+    if tag < 10:
+        return K["tag"][tag]
+    if tag not in env["table"]:
+        spec = case["classes"][tag - 10]
+        env["table"][tag] = _with_overrides(K, K["KDSubset"] if spec["base"] == "sub" else K["KDWrapper"], spec)
+    return env["table"][tag]
 
 
 def _ints(v):
@@ -320,12 +648,41 @@ def _call(f):
         return ("err", type(e).__name__)
 
 
+def _decode(v):
+    if isinstance(v, (tuple, list)) and v and isinstance(v[0], Tok):
+        v = v[0]
+    if isinstance(v, Tok):
+        return ["found", v.uid, v.kc]
+    return ["other", repr(v)[:60]]
+
+
+def _query(top, name):
+    try:
+        v = getattr(top, name)
+    except AttributeError:
+        return ["missing"]
+    if callable(v) and not isinstance(v, Tok):
+        try:
+            v = v()
+        except AssertionError:
+            return ["assert"]
+        except AttributeError:
+            return ["missing-on-call"]
+    return _decode(v)
+
+
+def all_tags(case):
+    return sorted(set(range(5)) | {10 + i for i in range(len(case.get("classes", [])))} | ({MW_TAG} if case.get("mw") else set()))
+
+
 def run_impl(case):
     K = _classes()
     from kappadata.utils.getall_as_tensor import getall, getall_as_list, getall_as_numpy, getall_as_tensor
     log = []
+    env = {"log": log, "wlog": [], "objs": {}, "table": {}}
+    top = annotate(case)
     try:
-        s = build(case["stack"], log)
+        s = build(case, top, env)
     except EXPECTED_ERRORS as e:
         return {"ctor": False, "ctor_err": type(e).__name__}
     obs = {"ctor": True}
@@ -333,6 +690,10 @@ def run_impl(case):
     obs["len"] = None if isinstance(r, tuple) else int(r)
     items = []
     for k in case["ks"]:
+        if case.get("kty") == "np":
+            k = K["np"].int64(k)
+        elif case.get("kty") == "torch":
+            k = K["torch"].tensor(k)
         r = _call(lambda: s.getitem_x(k))
         items.append(None if isinstance(r, tuple) else int(r))
     obs["items"] = items
@@ -354,14 +715,50 @@ def run_impl(case):
     obs["root"] = s.root_dataset.id
     obs["attr"] = [s.marker, s.getshape_x()[0], s.getdim_x()]
     ws = s.all_wrappers
-    tag_of = {cls: tg for tg, cls in K["tag"].items()}
+    tag_of = {}
+    for tg in all_tags(case):
+        tag_of[K["tag"][tg] if tg < 10 or tg == MW_TAG else _layer_class(case, {"tag": tg}, env)] = tg
     obs["wrappers"] = [tag_of[c] for c in s.all_wrapper_types]
     assert [type(w) for w in ws] == s.all_wrapper_types
-    obs["oftype"] = [[tg, [next(i for i, w in enumerate(ws) if w is x) for x in s.get_wrappers_of_type(K["tag"][tg])]]
-                     for tg in sorted(K["tag"])]
-    obs["hastype"] = [[tg, bool(s.has_wrapper_type(K["tag"][tg]))] for tg in sorted(K["tag"])]
+    cls_of = {tg: c for c, tg in tag_of.items()}
+    obs["oftype"] = [[tg, [next(i for i, w in enumerate(ws) if w is x) for x in s.get_wrappers_of_type(cls_of[tg])]]
+                     for tg in sorted(cls_of)]
+    obs["hastype"] = [[tg, bool(s.has_wrapper_type(cls_of[tg]))] for tg in sorted(cls_of)]
+
+    # attribute delegation / introspection (AttrModel.v)
+    a = {}
+    a["queries"] = [[nm, _query(s, nm)] for nm in case.get("queries", [])]
+    uid_of = {id(o): u for u, o in env["objs"].items()}
+    for nm, key in (("fused_operations", "fused"), ("requires_propagate_ctx", "req")):
+        try:
+            v = getattr(s, nm)
+            a[key] = [int(g[0][1:-1]) for g in v] if key == "fused" else bool(v)
+        except RuntimeError:
+            a[key] = "RuntimeError"
+    a["coll"] = [c.cid for c in s.collators]
+    env["wlog"].clear()
+    s.worker_init_fn(0)
+    a["wreach"] = list(env["wlog"])
+    a["root"] = uid_of.get(id(s.root_dataset), -1)
+    a["wrappers"] = [uid_of.get(id(w), -1) for w in ws]
+    a["haswrap"] = [[u, bool(s.has_wrapper(o))] for u, o in sorted(env["objs"].items())]
+    one = []
+    for tg in sorted(cls_of):
+        try:
+            w = s.get_wrapper_of_type(cls_of[tg])
+            one.append([tg, ["none"] if w is None else ["at", next(i for i, x in enumerate(ws) if x is w)]])
+        except AssertionError:
+            one.append([tg, ["assert"]])
+    a["oftype1"] = one
+    id2uid = {n["id"]: n["uid"] for n in o_preorder(top) if n["t"] == "root"}
     s.dispose()
     obs["dispose"] = list(log)
+    a["dispose"] = [id2uid[i] for i in log]
+    del log[:]
+    with s as entered:
+        a["enter"] = entered is s
+    a["with"] = [id2uid[i] for i in log]
+    obs["a"] = a
     return obs
 
 
@@ -395,10 +792,55 @@ def coq_applicable(case, obs):
     return "harness_exception" not in obs
 
 
+def _cstr(x):
+    return Str(x)
+
+
+def coq_node(case, n):
+    spec = node_class(case, n)
+    return Rec(n_uid=n["uid"], n_cls=[(_cstr(nm), Raw(KINDS[k][0])) for nm, k in spec["cls"].items()],
+               n_inst=[_cstr(nm) for nm in n.get("inst", [])],
+               n_bo=Rec(bo_fo=list(n.get("fo", [])) if n["t"] == "root" else list(spec.get("fo", [])),
+                        bo_req=bool(n.get("req", False)) if n["t"] == "root" else bool(spec.get("req", False)),
+                        bo_coll=list(n.get("coll", []))))
+
+
+def coq_astack(case, n):
+    k = n["t"]
+    if k == "root":
+        return C("ARoot", coq_node(case, n))
+    if k == "cat":
+        return C("ACat", coq_node(case, n), [coq_astack(case, q) for q in n["parts"]])
+    return C({"sub": "ASub", "wrap": "AWrap", "mode": "AMode"}[k], coq_node(case, n), coq_astack(case, n["s"]))
+
+
+def _ares(r):
+    if r[0] == "found":
+        return C("AFound", r[1], Nat(r[2]))
+    return Raw({"missing": "AMissing", "assert": "AAssert"}.get(r[0], "ASpecial"))
+
+
+def _wot(r):
+    if r[0] == "none":
+        return Raw("(inl None)")
+    if r[0] == "at":
+        return Raw(f"(inl (Some {r[1]}%nat))")
+    return Raw("(inr tt)")
+
+
+EMPTY_AOBS = ("{| a_queries := []; a_fused := None; a_req := None; a_coll := []; a_wreach := []; a_dispose := []; "
+              "a_with := []; a_root := 0; a_wrappers := []; a_haswrap := []; a_oftype1 := [] |}")
+
+
 def coq_case(case, obs):
+    top = annotate(case)
+    st = coq_stack(case["stack"])
+    if case.get("mw"):
+        st = C("Wrap", MW_TAG, st)
     if not obs["ctor"]:
         o = Rec(o_ctor=False, o_len=Opt(None), o_items=[], o_hasall=False, o_getall=Raw("GErr"), o_util=Raw("GErr"),
                 o_root=0, o_wrappers=[], o_oftype=[], o_hastype=[], o_dispose=[])
+        ao = Raw(EMPTY_AOBS)
     else:
         o = Rec(o_ctor=True, o_len=Opt(obs["len"]),
                 o_items=[Opt(None if v is None else _sample(v)) for v in obs["items"]],
@@ -407,7 +849,15 @@ def coq_case(case, obs):
                 o_oftype=[(tg, [Nat(p) for p in ps]) for tg, ps in obs["oftype"]],
                 o_hastype=[(tg, bool(b)) for tg, b in obs["hastype"]],
                 o_dispose=list(obs["dispose"]))
-    return coq((coq_stack(case["stack"]), list(case["ks"]), o))
+        a = obs["a"]
+        ao = Rec(a_queries=[(_cstr(nm), _ares(r)) for nm, r in a["queries"]],
+                 a_fused=Raw("None") if a["fused"] == "RuntimeError" else Opt(list(a["fused"])),
+                 a_req=Raw("None") if a["req"] == "RuntimeError" else Opt(bool(a["req"])),
+                 a_coll=list(a["coll"]), a_wreach=list(a["wreach"]), a_dispose=list(a["dispose"]),
+                 a_with=list(a["with"]), a_root=a["root"], a_wrappers=list(a["wrappers"]),
+                 a_haswrap=[(u, bool(b)) for u, b in a["haswrap"]],
+                 a_oftype1=[(tg, _wot(r)) for tg, r in a["oftype1"]])
+    return coq((st, list(case["ks"]), o, coq_astack(case, top), ao))
 
 
 # ---------------------------------------------------------------------------
@@ -433,11 +883,30 @@ def gen_tree(rng, depth, ids, allow_bal, big=False):
             idxs = [] if rng.random() < 0.85 else [rng.choice([0, -1])]
         else:
             idxs = [rng.randint(-n, n - 1) if rng.random() < 0.4 else rng.randint(0, n - 1) for _ in range(m)]
-            if rng.random() < 0.3:
+            r2 = rng.random()
+            if r2 < 0.3:
                 idxs = sorted(set(i % n for i in idxs))
+            elif r2 < 0.42:
+                # full-length index maps: permutations (shuffle-style wrappers), identity, rotations, reversed
+                idxs = list(range(n))
+                kind = rng.choice(["perm", "perm", "id", "rot", "rev", "ends"])
+                if kind == "perm":
+                    rng.shuffle(idxs)
+                elif kind == "rot":
+                    k0 = rng.randrange(n)
+                    idxs = idxs[k0:] + idxs[:k0]
+                elif kind == "rev":
+                    idxs.reverse()
+                elif kind == "ends" and n > 2:
+                    # end points fixed, interior permuted or with repeats (sorted-by-class style maps)
+                    mid = [rng.randrange(n) for _ in range(n - 2)] if rng.random() < 0.5 else rng.sample(range(1, n - 1), n - 2)
+                    idxs = [0] + mid + [n - 1]
             if rng.random() < 0.06 and idxs:
                 idxs[rng.randrange(len(idxs))] = rng.choice([n, -n - 1, n + 2])
-        return {"t": "sub", "tag": rng.choice(SUB_TAGS), "idxs": idxs, "ic": rng.choice(["list", "list", "np", "torch"]), "s": s}
+        ic = rng.choice(["list", "list", "np", "torch", "tuple", "range"])
+        if ic == "range" and not is_range(idxs):
+            ic = "list"
+        return {"t": "sub", "tag": rng.choice(SUB_TAGS), "idxs": idxs, "ic": ic, "s": s}
     if r < 0.65:
         return {"t": "wrap", "tag": rng.choice(WRAP_TAGS), "s": gen_tree(rng, depth - 1, ids, allow_bal, big)}
     bal = allow_bal and rng.random() < 0.5
@@ -455,6 +924,91 @@ def _cat_of(t):
     return t if t["t"] == "cat" else None
 
 
+QUERIES = PLAIN_POOL + ["getshape_u", "getshape_v", "getdim_u", "getdim_v", "getdim_w"]
+
+
+def gen_cls_env(rng, base):
+    env = {}
+    for nm in PLAIN_POOL:
+        if rng.random() < 0.3:
+            env[nm] = rng.choice(["method", "prop", "cattr", "prop", "method", "prop_raise"])
+    for k in SHAPE_KINDS:
+        if rng.random() < (0.45 if base == "root" else 0.2):
+            env["getshape_" + k] = rng.choice(["method", "method", "method", "shape2", "shapent"])
+    if rng.random() < (0.12 if base in ("sub", "cat") else 0.012):
+        # only classes outside the KDDataset family may define getdim_ themselves (KDDataset.__init__ asserts)
+        env["getdim_" + rng.choice(SHAPE_KINDS)] = "method"
+    return env
+
+
+def decorate(rng, case):
+    """attribute environments, class table, introspection overrides, ModeWrapper on top, queries, index types"""
+    gid = itertools.count(1)
+    classes = []
+    if rng.random() < 0.6:
+        for _ in range(rng.choice([1, 2, 2, 3])):
+            base = rng.choice(["sub", "wrap"])
+            spec = {"base": base, "cls": gen_cls_env(rng, base), "fo": [], "req": False}
+            if base == "wrap":
+                if rng.random() < 0.35:
+                    spec["fo"] = [next(gid)]
+                spec["req"] = rng.random() < 0.15
+            classes.append(spec)
+    case["classes"] = classes
+
+    def go(t):
+        k = t["t"]
+        if k in ("sub", "wrap"):
+            cands = [10 + i for i, c in enumerate(classes) if c["base"] == k]
+            if cands and rng.random() < 0.5:
+                t["tag"] = rng.choice(cands)
+        if k == "root":
+            if rng.random() < 0.6:
+                t["cls"] = gen_cls_env(rng, "root")
+            if rng.random() < 0.2:
+                t["fo"] = [next(gid)]
+            if rng.random() < 0.15:
+                t["req"] = True
+            if rng.random() < 0.3:
+                t["coll"] = [next(gid) for _ in range(rng.choice([1, 2]))]
+        if k == "cat" and rng.random() < 0.25:
+            t["cls"] = gen_cls_env(rng, "cat")
+        inst = [nm for nm in PLAIN_POOL if rng.random() < 0.12]
+        if rng.random() < 0.05:
+            inst.append("getdim_" + rng.choice(SHAPE_KINDS))
+        if inst:
+            t["inst"] = inst
+        if k == "cat":
+            for q in t["parts"]:
+                go(q)
+        elif k != "root":
+            go(t["s"])
+    go(case["stack"])
+    case["queries"] = list(QUERIES)
+    if rng.random() < 0.3 and mw_possible(case):
+        case["mw"] = True
+        if rng.random() < 0.3:
+            case["mw_inst"] = [rng.choice(PLAIN_POOL)]
+    r = rng.random()
+    if r < 0.15:
+        case["kty"] = "np"
+    elif r < 0.22:
+        case["kty"] = "torch"
+    return case
+
+
+def mw_possible(case):
+    """ModeWrapper's constructor asserts that no fused op is declared twice"""
+    path = o_path(annotate(dict(case, mw=False)))
+    fo = []
+    for n in path:
+        if n["t"] == "root":
+            fo += n.get("fo", [])
+        elif n["t"] == "wrap":
+            fo += node_class(case, n)["fo"]
+    return len(set(fo)) == len(fo) and all(q["t"] != "cat" or q["parts"] for q in path)
+
+
 def gen_case(rng, big=False):
     ids = itertools.count(rng.choice([0, 0, 1, 5]))
     depth = rng.choice([1, 2, 2, 3, 3, 4, 4, 5, 6])
@@ -466,12 +1020,97 @@ def gen_case(rng, big=False):
         ks = list(range(0, 2 * total + 3)) + [-1, -2, -total, -total - 1]
     else:
         ks = list(range(-n, n)) + [n, -n - 1, n + 3]
-    return {"stack": t, "ks": ks}
+    return decorate(rng, {"stack": t, "ks": ks})
+
+
+def _root(id, n, pk="list", **kw):
+    return dict({"t": "root", "id": id, "n": n, "pk": pk}, **kw)
+
+
+def _sub(idxs, s, ic="list", tag=0, **kw):
+    return dict({"t": "sub", "tag": tag, "idxs": list(idxs), "ic": ic, "s": s}, **kw)
+
+
+def _wrap(s, tag=2, **kw):
+    return dict({"t": "wrap", "tag": tag, "s": s}, **kw)
+
+
+def _cat(parts, bal=False, **kw):
+    return dict({"t": "cat", "bal": bal, "parts": parts}, **kw)
+
+
+def directed_cases():
+    out = []
+
+    def add(stack, ks=None, **kw):
+        n = t_len(stack)
+        if ks is None:
+            ks = list(range(-n, n)) + [n, -n - 1] if n is not None else list(range(0, 7)) + [-1]
+        out.append(dict({"stack": stack, "ks": ks, "queries": list(QUERIES), "classes": []}, **kw))
+    # index containers of KDSubset: list / tuple / range / ndarray / tensor; index types int / numpy int / 0-d tensor
+    for ic in ("list", "tuple", "range", "np", "torch"):
+        for kty in (None, "np", "torch"):
+            add(_sub([1, 3, 5], _root(0, 7), ic=ic), kty=kty)
+            add(_sub([2, 1, 0], _sub([0, 2, 4, 6], _wrap(_root(0, 7, pk="np")), ic=ic), ic=ic), kty=kty)
+            add(_sub([0, 1, 2, 3], _cat([_root(0, 2), _sub([1], _root(1, 3), ic=ic)]), ic=ic), kty=kty)
+            add(_sub([0, 1, 2, 3, 4], _cat([_root(0, 2), _root(1, 3)], bal=True), ic=ic), kty=kty)
+    # negative k / negative entries through several layers
+    deep = _root(0, 6)
+    for idxs in ([-1, -2, -3, 0], [-4, 1, -1], [-3, -3, 2], [-1, 0], [-2]):
+        deep = _wrap(_sub(idxs, deep), tag=3)
+        add(deep)
+        add(_cat([deep, _root(1, 2)]))
+        add(_sub([-1, -2, 0], _cat([_root(2, 1), deep, _root(1, 0)])))
+    # empty stacks: len 0 everywhere
+    for st in (_root(0, 0), _sub([], _root(0, 0)), _sub([], _root(0, 5)), _cat([_root(0, 0)]), _cat([_root(0, 0), _root(1, 0)]),
+               _sub([], _cat([_root(0, 0), _root(1, 0)])), _wrap(_sub([], _wrap(_root(0, 3)))),
+               _cat([_sub([], _root(0, 4)), _sub([], _root(1, 0))]), _sub([], _cat([_root(0, 1)], bal=True)),
+               _sub([], _sub([], _sub([], _root(0, 2))))):
+        for pk in ("list", "np", "torch", "none"):
+            add(_set_pk(st, pk))
+            add(_set_pk(st, pk), mw=True)
+    # attribute environments: shadowing at several layers, property vs instance vs method, raising property,
+    # getshape_/getdim_ pairs, a type occurring twice (get_wrapper_of_type asserts), ModeWrapper on top
+    classes = [{"base": "wrap", "cls": {"alpha": "method", "getshape_u": "method"}, "fo": [1], "req": False},
+               {"base": "sub", "cls": {"alpha": "prop_raise", "beta": "cattr", "getshape_u": "shape2", "getdim_v": "method"},
+                "fo": [], "req": False},
+               {"base": "wrap", "cls": {"beta": "prop", "gamma": "cattr", "getshape_v": "shapent"}, "fo": [], "req": True}]
+    r = _root(0, 4, cls={"alpha": "prop", "beta": "method", "gamma": "prop_raise", "getshape_u": "method",
+                         "getshape_v": "method"}, fo=[7], coll=[8, 9], inst=["delta"])
+    chains = [
+        _wrap(_sub([0, 1], _wrap(r, tag=12, inst=["beta", "gamma"]), tag=11), tag=10),
+        _sub([1, 0], _sub([0, 1, 2], _wrap(r, tag=10), tag=11), tag=11),
+        _wrap(_wrap(r, tag=10, inst=["alpha"]), tag=12),
+        _sub([0], r, tag=11, inst=["getshape_u"][:0] + ["alpha"]),
+        _wrap(_wrap(_wrap(r, tag=12), tag=10), tag=12),
+        _wrap(r, tag=10, inst=["getdim_u"]),
+        r,
+    ]
+    for ch in chains:
+        add(ch, classes=classes)
+        add(ch, classes=classes, mw=True, mw_inst=["gamma"])
+        add(_cat([ch, _wrap(_root(5, 2, cls={"delta": "method"}, req=True), tag=12)], cls={"delta": "prop", "getdim_u": "method"}),
+            classes=classes)
+        add(_sub([0, 1], _cat([_root(6, 1, coll=[3]), ch])), classes=classes, mw=True)
+    add(_wrap(r, tag=10), classes=[{"base": "wrap", "cls": {"getdim_u": "method"}, "fo": [], "req": False}])
+    add(_root(0, 2, cls={"getdim_u": "method"}))
+    return out
+
+
+def _set_pk(t, pk):
+    t = dict(t)
+    if t["t"] == "root":
+        t["pk"] = pk
+    elif t["t"] == "cat":
+        t["parts"] = [_set_pk(q, pk) for q in t["parts"]]
+    else:
+        t["s"] = _set_pk(t["s"], pk)
+    return t
 
 
 def gen_cases(rng, tier):
     n = 600 if tier == "quick" else 5000
-    out = [gen_case(rng) for _ in range(n)]
+    out = directed_cases() + [gen_case(rng) for _ in range(n)]
     if tier == "thorough":
         out += [gen_case(rng, big=True) for _ in range(1500)]
     if os.environ.get("C02_PROBE_BALANCED_GETALL"):
@@ -484,6 +1123,8 @@ def gen_cases(rng, tier):
 
 
 def search_cases(rng, tier):
+    for c in directed_cases():
+        yield c
     for i in range(30000):
         yield gen_case(rng, big=(i % 4 == 3))
 
@@ -498,6 +1139,27 @@ def features(case, obs):
     yield "has_cat=%s" % t_has(t, lambda n: n["t"] == "cat")
     yield "neg_subset_entry=%s" % t_has(t, lambda n: n["t"] == "sub" and any(i < 0 for i in n["idxs"]))
     yield "empty_part=%s" % t_has(t, lambda n: n["t"] == "cat" and any(t_len(p) == 0 for p in n["parts"]))
+    if case.get("mw"):
+        yield "mode-wrapper-on-top"
+    if case.get("kty"):
+        yield "k-type=" + case["kty"]
+    for n in o_preorder(t):
+        if n["t"] == "sub":
+            yield "indices=" + n.get("ic", "list")
+    a = obs.get("a")
+    if a:
+        for nm, r in a["queries"]:
+            yield "query:" + ("getdim" if nm.startswith("getdim_") else "getshape" if nm.startswith("getshape_") else "plain") \
+                + "=" + r[0] + (("/kind%d" % r[2]) if r[0] == "found" else "")
+        top = annotate(case)
+        path = o_path(top)
+        for nm in PLAIN_POOL:
+            prov = [n["uid"] for n in path if o_own(case, n, nm) is not None]
+            if len(prov) > 1:
+                yield "name-shadowed-at-several-layers"
+                break
+        for tg, r in a["oftype1"]:
+            yield "get_wrapper_of_type=" + r[0]
     yield "getall=" + (obs.get("getall") or ["n/a"])[0]
     yield "util=" + (obs.get("util") or ["n/a"])[0]
 
@@ -513,6 +1175,11 @@ def shrink(case):
 
     def variants(t):
         k = t["t"]
+        for key in ("cls", "inst", "fo", "req", "coll"):
+            if t.get(key):
+                yield {kk: vv for kk, vv in t.items() if kk != key}
+        if k in ("sub", "wrap") and t["tag"] >= 10:
+            yield dict(t, tag=0 if k == "sub" else 2)
         if k == "root":
             if t["n"] > 0:
                 yield dict(t, n=t["n"] - 1)
@@ -538,6 +1205,13 @@ def shrink(case):
         for v in variants(t["s"]):
             yield dict(t, s=v)
 
+    if case.get("mw"):
+        yield dict(case, mw=False)
+    if case.get("kty"):
+        yield dict(case, kty=None)
+    if len(case.get("queries", [])) > 1:
+        for q in case["queries"]:
+            yield dict(case, queries=[q])
     for v in variants(t):
         n = t_len(v)
         ks = [k for k in case["ks"] if n is None or -n <= k < n]
